@@ -22,7 +22,7 @@ EXPLANATION = (
     'the literal views print is what the parser compares with, and clones do '
     'not inherit lookup caches.  '
     'Losslessness of each view over all specs and DNAs is not decided.')
-FLOORS = {'C12.a': 4, 'C12.b': 2, 'C12.c': 3, 'C12.d': 2, 'C12.e': 1, 'C12.f': 2}
+FLOORS = {'C12.a': 4, 'C12.b': 2, 'C12.c': 3, 'C12.d': 2, 'C12.e': 1, 'C12.f': 2, 'C12.g': 1}
 FILES = ['pyglove/core/geno/base.py', 'pyglove/core/geno/categorical.py',
          'pyglove/ext/evolution/mutators.py', 'pyglove/ext/evolution/recombinators.py']
 G = 'pyglove.core.geno.'
@@ -430,6 +430,45 @@ def rule_f(ctx):
          '(every key form of one decision gives the same answer)', f.loc, '; '.join(problems))
 
 
+def rule_g(ctx):
+  """The nested-numbers view mirrors the tree: the view of a child is placed
+  into the parent's view as ONE element.  Re-packing it (`list(child_view)`,
+  `tuple(...)`, `*child_view`, `.extend(child_view)`) splices a (value,
+  children) pair into siblings, and the view no longer parses back."""
+  idx = ctx.index
+  f = idx.func(G + 'base.DNA.to_numbers')
+  g = C.cfg_of(f.node)
+  flat_param = [p for p in A.param_names(f.node) if p != 'self'][0]
+  blocked = {(k.id, m.id, l) for k in g.nodes if k.kind == 'test' and A.unparse(k.ast) == flat_param
+             for m, l in k.succ if l == 'true'}
+  seen, _ = g.reach(g.entry, blocked_edges=blocked, follow_exc=False)
+  def is_rec(e):
+    return isinstance(e, ast.Call) and isinstance(e.func, ast.Attribute) and e.func.attr == f.node.name
+  rec_locals = {nm for st in ast.walk(f.node) if isinstance(st, ast.Assign) and is_rec(st.value)
+                for nm in A.assigned_names(st.targets[0])}
+  def is_view(e):
+    return is_rec(e) or (isinstance(e, ast.Name) and e.id in rec_locals)
+  bad = []
+  n = 0
+  for k in g.nodes:
+    if k.id not in seen or k.ast is None:
+      continue
+    for e in k.exprs():
+      for c in ast.walk(e):
+        if isinstance(c, ast.Call):
+          d = A.call_name(c) or ''
+          if is_rec(c):
+            n += 1
+          if (d in ('list', 'tuple', 'set') or d.endswith('.extend')) and c.args and is_view(c.args[0]):
+            bad.append(f'line {c.lineno}: `{A.unparse(c, 50)}` re-packs the view of a child')
+        if isinstance(c, ast.Starred) and is_view(c.value):
+          bad.append(f'line {c.lineno}: `*{A.unparse(c.value, 40)}` splices the view of a child')
+  ctx.ob('C12.g', f.fq + '#nested', n >= 2 and not bad,
+         'in the nested-numbers view the view of a child is one element of its parent\'s view (never re-packed or '
+         'spliced), so the view parses back to the same tree', f.loc,
+         '; '.join(bad) or 'recursive calls of the nested branch not found')
+
+
 def run(ctx):
   ctx.consult(*FILES)
   rule_a(ctx)
@@ -438,4 +477,5 @@ def run(ctx):
   rule_d(ctx)
   rule_e(ctx)
   rule_f(ctx)
+  rule_g(ctx)
   ctx.assume('losslessness of each view over all specs/DNAs is not decided')
